@@ -135,6 +135,40 @@ def setAll (strict : Bool) (accepts : Nat → Val → Except Err Unit) :
     | .ok t' => setAll strict accepts t' rest
     | .error e => .error e
 
+/-! ### calibration: `update_processor` hands every variable its own slice of the decision vector
+
+`ModelFittingDataTree.update_processor(parameter, processor)`: the variables are visited in declaration order
+with a running offset; a scalar variable (`values: '_'`) receives `parameter[a]` and advances by 1, a vector
+variable (`values: ['_', …]` of length `n`) receives `parameter[a : a+n]` and advances by `n`. -/
+
+/-- the assignments made for the variables `(key, none = scalar | some n = vector of n)` from the vector `xs` -/
+def slices : List (List String × Option Nat) → List Val → List (List String × Val)
+  | [], _ => []
+  | (k, none) :: r, xs => (k, xs.headD .none) :: slices r (xs.drop 1)
+  | (k, some n) :: r, xs => (k, .list (xs.take n)) :: slices r (xs.drop n)
+
+def calUpdate (strict : Bool) (accepts : Nat → Val → Except Err Unit) (t : Tree)
+    (vars : List (List String × Option Nat)) (xs : List Val) : Except Err Tree :=
+  setAll strict accepts t (slices vars xs)
+
+/-! ### command line: `--override key=value`
+
+`pyxel.run(file, override=[…])`: `key, value = element.split("=")` — exactly one `=`; anything else is a
+`ValueError` before anything runs.  The value then goes through `Processor.set` (literal conversion). -/
+
+def splitOnEq : List Char → List (List Char)
+  | [] => [[]]
+  | c :: r =>
+    if c = '=' then [] :: splitOnEq r
+    else match splitOnEq r with
+      | [] => [[c]]
+      | h :: t => (c :: h) :: t
+
+def parseOverride (cs : List Char) : Except Err (List Char × List Char) :=
+  match splitOnEq cs with
+  | [k, v] => .ok (k, v)
+  | _ => .error .value
+
 /-! ### `Observation.validate_steps` (one step) -/
 
 /-- Python truthiness -/
